@@ -19,6 +19,8 @@ import (
 //   spzero       RegCustomDiceParser that reports Matched without consuming anything
 //   hooks        identity HookValueLoadPre / HookValueLoadPost / HookValueStore
 //   hooks2       identity HookValueLoadPre / HookValueLoadPost that calls doCompute only for computed values
+//   hookren      HookValueLoadPre that strips the prefix 困难 from every name it is asked for
+//   spgroups     stream parser C<d>T<d> refilling one shared groups buffer; the handler adds the two numbers
 //   gnil         empty global table (GlobalValueLoadFunc -> nil) + identity GlobalValueLoadOverwriteFunc
 //   spexpr       stream parser: 'R' then an operand read with the stream's own ReadExpr; the handler evaluates the operand
 //   gjson:<hex>  global variables served from a JSON variable map that is decoded afresh on every load
@@ -66,6 +68,39 @@ func customLine(t []string) string {
 					}
 					return cur
 				}
+			case sp == "hookren":
+				// a host that renames on load (the way sealdice strips a difficulty prefix): "困难X" is looked up as "X" — in the local
+				// scope chain AND at the global stage (global table, builtins)
+				vm.Config.HookValueLoadPre = func(ctx *ds.Context, name string) (string, *ds.VMValue) {
+					return strings.TrimPrefix(name, "困难"), nil
+				}
+			case sp == "spgroups":
+				// stream parser "C<digits>T<digits>" that refills ONE groups buffer on every match (the compiled operand must own a copy)
+				buf := make([]string, 3)
+				_ = vm.RegCustomDiceParser(func(ctx *ds.Context, s *ds.CustomDiceStream) (*ds.CustomDiceParseResult, error) {
+					r, ok := s.Read()
+					if !ok || r != 'C' {
+						return nil, nil
+					}
+					a, ok := s.ReadDigits()
+					if !ok {
+						return &ds.CustomDiceParseResult{Matched: false}, nil
+					}
+					if r, ok := s.Read(); !ok || r != 'T' {
+						return &ds.CustomDiceParseResult{Matched: false}, nil
+					}
+					b, ok := s.ReadDigits()
+					if !ok {
+						return &ds.CustomDiceParseResult{Matched: false}, nil
+					}
+					buf[0], buf[1], buf[2] = "C"+a+"T"+b, a, b
+					return &ds.CustomDiceParseResult{Matched: true, Groups: buf}, nil
+				}, func(ctx *ds.Context, groups []string, payload any) (*ds.VMValue, string, error) {
+					log = append(log, "spgroups|"+strings.Join(groups, "\x1f"))
+					x, _ := strconv.Atoi(groups[1])
+					y, _ := strconv.Atoi(groups[2])
+					return ds.NewIntVal(ds.IntType(x + y)), "", nil
+				})
 			case sp == "gnil":
 				// a host with a global variable table that holds nothing, and an overwrite function that hands values back
 				vm.GlobalValueLoadFunc = func(name string) *ds.VMValue { return nil }
